@@ -279,7 +279,8 @@ def run(ctx):
   tvar = xvar = flag = None
   for n in walk_local(mc.node):
     if isinstance(n, ast.Assign) and len(n.targets) == 1 and isinstance(n.targets[0], ast.Tuple) and len(n.targets[0].elts) >= 2 \
-        and isinstance(n.value, ast.Subscript) and isinstance(n.targets[0].elts[1], ast.Name):
+        and (isinstance(n.value, ast.Subscript) or (isinstance(n.value, ast.Call) and isinstance(n.value.func, ast.Attribute) and n.value.func.attr == 'get')) \
+        and isinstance(n.targets[0].elts[1], ast.Name):
       tvar = n.targets[0].elts[1].id
     if isinstance(n, ast.Call) and isinstance(n.func, ast.Attribute) and n.func.attr == 'append' and isinstance(n.func.value, ast.Name) \
         and len(n.args) == 1 and isinstance(n.args[0], ast.Call):
